@@ -9,6 +9,7 @@ import (
 	_ "verif/props/edet"
 	_ "verif/props/emem"
 	_ "verif/props/enet"
+	_ "verif/props/enoc"
 	_ "verif/props/eobj"
 	_ "verif/props/eserial"
 	_ "verif/props/etrace"
